@@ -1561,6 +1561,9 @@ class SQLModel:
             temp_id_source = [0]
         if using is None:
             using = OrderedSet(join_node.column_names)
+        if len(using) < 1:
+            # the consumer needs no column (e.g. it only counts rows): still produce the rows
+            using = OrderedSet(join_node.column_names[:1])
         view_name = f"natural_join_{temp_id_source[0]}"
         left_q = f"join_source_left_{temp_id_source[0]}"
         right_q = f"join_source_right_{temp_id_source[0]}"
@@ -1645,7 +1648,8 @@ class SQLModel:
         if using is None:
             using = OrderedSet(concat_node.column_names)
         if len(using) < 1:
-            raise ValueError("must select at least one column")
+            # the consumer needs no column (e.g. it only counts rows): still produce the rows
+            using = OrderedSet(concat_node.column_names[:1])
         missing = using - set(concat_node.column_names)
         if len(missing) > 0:
             raise KeyError("referred to unknown columns: " + str(missing))
